@@ -1386,7 +1386,11 @@ def run(ck):
         ck.note_case(("strip", text), "#" in text and '"' in text)
         ref = [ref_cut(l) for l in re.split(r"[\r\n]", text)]
         flagged = False
-        if cuts != ref:
+        if cuts is None:
+            flagged = True
+            ck.report("strip:not-line-wise", "_strip_comments output is not, line by line (split at CR / LF only), a prefix "
+                      "of the input: %r -> %r" % (text[:60], out[:60]), {"kind": "strip", "text": text})
+        elif cuts != ref:
             flagged = True
             i = next((i for i, (a, b) in enumerate(itertools.zip_longest(cuts or [], ref)) if a != b), 0)
             line = re.split(r"[\r\n]", text)[i]
